@@ -13,7 +13,7 @@ import UnytModel.SystemTables
 import UnytModel.PhysicalConstantsCheck
 
 namespace Unyt.C15
-open Unyt AddConstants Generated PCheck
+open Unyt AddConstants Generated PCheck Ref.C15
 
 section
 attribute [local instance] ratPowStub
@@ -66,6 +66,46 @@ def plainDimIsTable (rows : List MatRow) : Bool :=
   (rowsByConst rows).all fun p => p.2.all fun gr =>
     (gr.1 == .cgs || gr.1 == .hcgs) || gr.2.dim == p.1.spec.dim
 
+/-- a model reading against a regenerated entry: SI magnitude (2⁻⁴⁵ relative), dimension, unit scale -/
+def readingMatches (r : Rat × UnitV Rat) (m : MatRow) : Bool :=
+  within (siMag r) m.mag guiseTol && r.2.dim == m.dim && within r.2.scale (ratOfBits m.scale) guiseTol
+
+/-- the model of `add_constants`, run on a regenerated unit system, reproduces the regenerated
+    namespace of that system: every plain / `_mks` / `_cgs` (and `hmks` / `hcgs`) entry of every row is
+    the model's reading, and `_cgs` entries exist only where the model writes one -/
+def modelReproduces (S cgsS : USys Rat) (rows : List MatRow) : Bool :=
+  (rowsByConst rows).all fun p =>
+    match mkUnit c10Pre c10Lut ⟨1, p.1.unitFactors⟩ with
+    | .error _ => false
+    | .ok u =>
+      match addConstantsRow c10Pre c10Lut c10Em S cgsS u (ratOfBits p.1.value) with
+      | .error _ => false
+      | .ok g =>
+        p.2.all fun gr =>
+          match gr.1 with
+          | .plain => readingMatches g.plain gr.2
+          | .mks | .hmks => readingMatches g.mks gr.2
+          | .cgs | .hcgs => match g.cgs with | some c => readingMatches c gr.2 | none => false
+
+def modelReproducesAll : Bool :=
+  match findSystem Rat "cgs" with
+  | none => false
+  | some cgsS =>
+    spaces.all fun s =>
+      match s.1.toList with
+      | 's' :: 'y' :: 's' :: ':' :: rest =>
+        match findSystem Rat (String.ofList rest) with
+        | some S => modelReproduces S cgsS s.2
+        | none => true
+      | _ => true
+
+/-- the namespaces the obligation really runs on -/
+def modelledSpaces : List String :=
+  spaces.filterMap fun s =>
+    match s.1.toList with
+    | 's' :: 'y' :: 's' :: ':' :: rest => (findSystem Rat (String.ofList rest)).map fun _ => s.1
+    | _ => none
+
 def plainDimOk : Bool := spaces.all fun s => !spaceSystemHasCurrent s.1 || plainDimIsTable s.2
 
 end
@@ -77,6 +117,14 @@ end
 theorem plain_guises_keep_dimension_in_current_systems : plainDimOk = true := by decide +kernel
 
 example : (spaces.filter fun s => !spaceSystemHasCurrent s.1).map (·.1) = ["sys:cgs"] := by decide +kernel
+
+/-- **the model reproduces the library's namespaces** (kernel, ℚ at the exact doubles): for each of the
+    built-in unit systems, what the model of `add_constants` writes for every row and guise is what the
+    regenerated namespace of `add_constants(ns, UnitRegistry(unit_system=…))` holds — SI magnitude and
+    unit scale to 2⁻⁴⁵, dimension exactly, `_cgs` present exactly where the model writes it -/
+theorem model_reproduces_builtin_namespaces : modelReproducesAll = true := by decide +kernel
+
+example : modelledSpaces.length ≥ 7 := by decide +kernel
 
 /-- every row of `physical_constants`, materialised by the model of `add_constants` for every
     built-in unit system, is the table's quantity (or its Gaussian reading by the table's factor),
